@@ -27,6 +27,17 @@ Proof.
   destruct (hs_software sg); reflexivity.
 Qed.
 
+(* the public wrapper: read the payload, direction -> section, record selection, dishonest flag *)
+Theorem gen_fingerprint_http_eq d data : gen_fingerprint_http d data = fp_http d data.
+Proof.
+  unfold gen_fingerprint_http, fp_http.
+  destruct (read_payload data) as [[[dir ver] hs]|e]; cbn [bind]; [|reflexivity].
+  destruct dir.
+  - destruct (d_http_req d) as [recs|]; [|reflexivity]. rewrite gen_find_http_match_eq, gen_dishonest_eq. reflexivity.
+  - destruct (d_http_resp d) as [recs|]; [|reflexivity]. rewrite gen_find_http_match_eq, gen_dishonest_eq. reflexivity.
+Qed.
+
 Print Assumptions gen_find_http_match_eq.
 Print Assumptions gen_software_eq.
 Print Assumptions gen_dishonest_eq.
+Print Assumptions gen_fingerprint_http_eq.
